@@ -39,7 +39,17 @@ def run(tier, seed, build):
                 "model (call records incl. args, kwargs, target), then for every call expression in a visited position the "
                 "real IR must contain the record (name, [instance?] + spelled positionals in source order, keywords by name); "
                 "instance = assignment target / @ReturnValue / @ClassName decided from the syntax alone. "
-                "non-trivial = distinct function with >= 1 judged call having >= 1 argument")
+                "non-trivial = distinct function with >= 1 judged call having >= 1 argument. "
+                "stage A (argument slots, py/props/c09args.py) — every argument expression over the whole nameable grammar (exhaustive to depth 3 "
+                "over {.attr, [sub], calls with 0-3 inner arguments, getattr with literal / non-literal / missing / extra arguments, hole as object "
+                "and as name} on {variable, builtin's name, literal}, depth 2 for hasattr / setattr / delattr and the full leaf set, every other "
+                "ast.expr class as root and below one / two steps, seeded random trees to depth 7) x eleven call-site kinds (function first / second "
+                "positional + keyword, method, starred, nested call, constructor assigned to name / attribute / walrus, returned bare / in a list, "
+                "discarded; full product for the small expressions, rotation by index + seed for the rest): the record must list the README "
+                "spelling (Lean Spec.spell through the driver op arg_spell) in that slot — in the FunctionAnalyser IR (+ Tie B with the Lean "
+                "function analyser and with the Lean namer on the same expression), in `python -m rattr -o ir`, end-to-end in `-o results` "
+                "(callee's accesses attributed to the argument), and with the callees in a followed import; "
+                "non-trivial = distinct (channel, call-site kind, argument expression)")
     rng = random.Random(seed)
     n_modules = 60 if tier == "quick" else 900
     model = common.Model()
@@ -96,9 +106,23 @@ def run(tier, seed, build):
             res.nontrivial.add(common.digest(c.fn_src))
         res.sample({"function": c.fn_src, "calls": c.im["calls"][:4]}, cap=3)
     imported_class_case(res)
+    # stage A: the spelling of every argument slot for arbitrary argument expressions (py/props/c09args.py)
+    from props import c09args
+
+    c09args.run_stage(res, tier, random.Random(seed * 7919 + 9), seed, model)
     res.assumptions = [
         "which callee names are classes is decided from the module preamble (class statements, namedtuple declarations) and namedtuple declarations in the function",
         "[interp] call-site spelling = README spelling of each argument expression",
+        "[interp] stage A: the README spelling of an argument is Lean Spec.spell of its projection; an argument read through a DIRECT "
+        "getattr-family call with a non-literal name or fewer than two positional arguments has no dotted equivalent and is not judged "
+        "(counted args:*:not-judged:*; rattr's 'o.<n>' is still compared with the Lean model); a direct getattr-family call with fewer than two "
+        "arguments is not a valid call of the builtin, so the abort it causes is not judged either",
+        "stage A judges the record of the probe's own call site only; the records of calls INSIDE the argument expression (e.g. the inner "
+        "`.pick(v, 'name')`) are named by the visitor's namer and belong to C10 / C01",
+        "stage A: when the analysis ends in a fatal / crash AFTER the call record was made (the visitor reaches the argument later), the "
+        "partial IR is judged; when it ends BEFORE, the case is classified syntactically (abort_class) — two classes are known findings, "
+        "anything else is a violation",
+        "stage A file channels hold the probes whose in-process analysis ended ok (at most 1500 in quick: all small ones + a seed-dependent stride)",
     ]
     return res
 
@@ -136,5 +160,13 @@ def imported_class_case(res):
 
 def replay(path):
     import json
-    print(json.dumps(json.load(open(path)), indent=1)[:5000])
+    j = json.load(open(path))
+    case = j.get("case") or {}
+    if case.get("stage") == "args":
+        import impl
+        from props import c09args
+
+        impl.reset_config()
+        return c09args.replay_case(case)
+    print(json.dumps(j, indent=1)[:5000])
     return 0
